@@ -52,7 +52,9 @@ flow -- on all four regions).  Lookups are oracle sweeps after every step rather
 they cost no depth.  The Seed clauses are additionally enumerated exhaustively over viewer lists x grants (DESIGN's
 fallback), through the same real event manager.  Two scenario families (see _family_cases) enumerate the cross-session
 wrapper collisions and the one-shot / trailing-slash cases exhaustively instead of reaching them by deeper BFS; a third
-family (_repeated_cases) grants ONE name up to 8 times per kind (BFS depth cannot hold 5+ grants of one name plus lookups).
+family (_repeated_cases) grants ONE name up to 8 times per kind (BFS depth cannot hold 5+ grants of one name plus lookups);
+a fourth (_upload_cases) registers one-shots the way production does: event ("upload", reg, name, uploader_url) pushes a
+request and a {"uploader": url} response for an UPLOAD_CREATING_CAPS name through the real event manager.
 Additional clauses: wrapper-url-unique (one wrapper URL handed out for two regions), lookup-raises / call-raises (an
 exception escaping the code under test).
 """
@@ -361,7 +363,8 @@ class Harness:
                     obs.append((url, api, res[:2] if res else None))
         for reg in range(N_REG):
             region = u.regions[reg]
-            for name in ALL_NAMES:
+            names = list(ALL_NAMES) + sorted({g[0] for g in w.grants[reg] + w.consumed[reg]} - set(ALL_NAMES))
+            for name in names:
                 exp = self.latest(w, reg, name)
                 try:
                     got = region.caps.get(name)
@@ -479,6 +482,8 @@ class Harness:
                 w.grants[reg].remove(g)
                 w.consumed[reg].append(g)
                 w.marks.add("temp-consumed")
+        elif kind == "upload":
+            self.step_upload(w, ev)
         elif kind == "seedreq":
             self.step_seedreq(w, ev)
         elif kind == "seedresp":
@@ -496,6 +501,34 @@ class Harness:
         w.obs = self.sweep(w)
         if key is not None and len(w.violations) == n0:
             self.memo[key] = w.obs
+
+    def step_upload(self, w: World, ev):
+        """("upload", reg, name, uploader_url): the viewer POSTs to the region's most recent URL of an upload-creating cap
+        and the simulator answers {"state": "upload", "uploader": url}; both flows go through the real event manager,
+        whose response branch is the only production code that registers one-shot caps (<name>Uploader)."""
+        _, reg, name, up_url = ev
+        u = w.u
+        site = "MITMProxyEventManager._handle_response[upload-creating]"
+        cap = self.latest(w, reg, name)
+        if cap is None:
+            raise HarnessError(f"upload through {name} which region {reg} was never granted")
+        out = u.cap_request(cap[2], {"asset_type": "texture", "name": "x"})
+        region = u.regions[reg]
+        want_cap = (name, str(region.circuit_addr), str(u.sessions[reg // 2].id))
+        got_cap = out["cap"]
+        if got_cap is None or tuple(got_cap[:3]) != want_cap:
+            _bad(w, "upload-request-attribution", "MITMProxyEventManager._handle_request[upload-creating]",
+                 f"request to {cap[2]} attributed to {got_cap}, expected {want_cap}")
+        if out["upstream_url"] != cap[2] or out["short_circuited"]:
+            _bad(w, "upload-request-attribution", "MITMProxyEventManager._handle_request[upload-creating]",
+                 f"request to {cap[2]} was redirected/answered by the proxy: {out['upstream_url']}")
+        resp = u.cap_response(out["state"], {"state": "upload", "uploader": up_url})
+        w.last_out = resp["body"]
+        if u.pump_errors:
+            _bad(w, "call-raises", site, f"upload exchange on {name} in region {reg} made the event manager raise {u.pump_errors}")
+            u.pump_errors = []
+        w.grants[reg].append((name + "Uploader", "TEMPORARY", up_url))
+        w.marks.add("upload")
 
     def step_seedreq(self, w: World, ev):
         _, reg, gen, names = ev
@@ -583,6 +616,9 @@ def allowed(w: World, ev) -> bool:
         return (TEMP_NAME, "TEMPORARY", ev[2]) not in w.grants[ev[1]]
     if kind == "seedreq":
         return w.pending is None and ev[2] <= w.seed_gen[ev[1]]
+    if kind == "upload":
+        return (w.pending is None and Harness.latest(w, ev[1], ev[2]) is not None
+                and (ev[2] + "Uploader", "TEMPORARY", ev[3]) not in w.grants[ev[1]])
     if kind == "seedresp":
         return w.pending is not None and all(n in w.pending["expected_upstream"] for n, _ in ev[1])
     return True
@@ -759,6 +795,32 @@ def _repeated_cases():
                     yield ("repeated-grants", temps + [("lookup", api, _g(n) + SUFFIXES[i % 2]) for i, n in enumerate(seq)])
 
 
+_UPLOAD_FULL = False
+
+
+def _upload_cases():
+    """uploads: for every name in MITMProxyEventManager.UPLOAD_CREATING_CAPS (read from the module) and region, the cap is
+    granted, k = 1..3 creation responses arrive through the real _handle_response before any uploader is used, then the
+    k uploader URLs are resolved in EVERY order (k! permutations), bare and extended alternating; quick rotates the lookup
+    API (manager / session / region) over the cases and uses plain uploader URLs, thorough takes the product with all
+    three APIs and also slash-terminated uploader URLs."""
+    from hippolyzer.lib.proxy.http_event_manager import MITMProxyEventManager
+    names = sorted(MITMProxyEventManager.UPLOAD_CREATING_CAPS)
+    styles = ("", "/") if _UPLOAD_FULL else ("",)
+    n = 0
+    for reg in _FAMILY_REGS:
+        apis = ("mgr", f"s{reg // 2}", f"r{reg}")
+        for i, name in enumerate(names):
+            for style in styles:
+                ups = [f"https://sim/cap/u{j}{style}" for j in (1, 2, 3)]
+                for k in (1, 2, 3):
+                    head = [("grant", reg, ((name, f"https://sim/cap/up-{i}"),))] + [("upload", reg, name, ups[j]) for j in range(k)]
+                    for perm in itertools.permutations(range(k)):
+                        for api in (apis if _UPLOAD_FULL else (apis[n % 3],)):
+                            n += 1
+                            yield ("uploads", head + [("lookup", api, ups[j] + SUFFIXES[x % 2]) for x, j in enumerate(perm)])
+
+
 def _family_worker(case):
     label, history = case
     part = Part()
@@ -777,6 +839,8 @@ def _family_worker(case):
     part.outcome(("family", jsonable(w.last_out), w.obs))
     if label == "wrappers" and history[0][1] == 0 and history[2][1] == 2 and history[0][0] != history[2][0]:
         part.sample({"search": "family:" + label, "history": history, "last_output": w.last_out})
+    if label == "uploads" and len(history) == 7 and history[-1][2].endswith("u1"):
+        part.sample({"search": "family:" + label, "history": history, "last_output": w.last_out}, limit=1)
     if label == "repeated-grants":
         part.count("repeated_grant_steps", len(history))
         if history[0][0] == "proxy":
@@ -786,12 +850,13 @@ def _family_worker(case):
 
 # ---- entry points -------------------------------------------------------------------------------------------------
 def run(run: Run):
-    global _SEED_URLS, _FAMILY_URLS, _FAMILY_REGS
+    global _SEED_URLS, _FAMILY_URLS, _FAMILY_REGS, _UPLOAD_FULL
     quick = run.tier == "quick"
     depths = {"first": 4, "last": 3, "cross": 3} if quick else {"first": 5, "last": 4, "cross": 5}
     _SEED_URLS = (A, AS) if quick else POOL
     _FAMILY_URLS = (A, AS) if quick else POOL
     _FAMILY_REGS = (0, 3) if quick else (0, 1, 2, 3)
+    _UPLOAD_FULL = not quick
     run.rule = ("explicit-state BFS on the real SessionManager/Session/ProxiedRegion/MITMProxyEventManager (2 sessions x 2 regions; "
                 "region r of both sessions stands in the same simulator = same circuit address, own Seed URL) over {grant(1-2 "
                 "entries), reseed, temp, wrap, proxy, consuming lookup, seedreq, seedresp} in three stated alphabets (first: full "
@@ -802,7 +867,9 @@ def run(run: Run):
                 "region pair x asset URL pair x {register_wrapper_cap, Seed response}; one or two one-shots per region x URL pair x "
                 "lookup API x suffix; repeated grants: one name granted 8 times with distinct URLs per kind -- NORMAL via update_caps / "
                 "Seed responses, WRAPPER, PROXY_ONLY then NORMAL, and 1..8 one-shots in flight consumed oldest-/newest-first per "
-                "API -- with the full sweep after every grant). non-trivial = distinct (feature set, model) with a URL extending >= 2 live grants, a "
+                "API -- with the full sweep after every grant; uploads: for every name in UPLOAD_CREATING_CAPS x region, 1..3 "
+                "upload-creating responses through the real _handle_response before any uploader is used, then the uploader URLs "
+                "resolved in every order). non-trivial = distinct (feature set, model) with a URL extending >= 2 live grants, a "
                 "re-granted name, a consumed temporary, a second register_proxy_cap, a wrapper, a re-seed, a stripped seed request "
                 "or a wrapped seed response; every family case")
     run.assumptions += [
@@ -836,13 +903,14 @@ def run(run: Run):
     run.coverage_extra["seed_enumeration"] = {"prefixes": len(SEED_PREFIXES), "viewer_lists": len(cases) // len(SEED_PREFIXES),
                                               "cases": run.counters.get("seed_cases", 0), "grant_urls": list(_SEED_URLS)}
     # scenario families
-    fam = list(_family_cases()) + list(_repeated_cases())
+    fam = list(_family_cases()) + list(_repeated_cases()) + list(_upload_cases())
     for d in pmap(_family_worker, fam, run.jobs):
         run.merge(d)
     run.coverage_extra["families"] = {"wrappers": sum(1 for c in fam if c[0] == "wrappers"),
                                       "one-shots": sum(1 for c in fam if c[0] == "one-shots"),
                                       "repeated-grants": sum(1 for c in fam if c[0] == "repeated-grants"),
                                       "repeated_grants_k": REPEAT_K,
+                                      "uploads": sum(1 for c in fam if c[0] == "uploads"),
                                       "urls": list(_FAMILY_URLS), "one_shot_regions": list(_FAMILY_REGS)}
     # shrink witnesses
     for v in run.violations:
